@@ -223,18 +223,36 @@ def enum_targets(tier):
                    "salt_as": "bytes", "b_as": "bytearray"}
 
 
+def _c03(name):
+    import props.c03 as c03
+    return getattr(c03, name)
+
+
+def run_setup_corpus(case, R):
+    """The byte-level use of the SRP values in pair-setup (anchor protocol/__init__.py): the mined exchanges as complete pair-setups."""
+    _c03("run_corpus")(case, R)
+
+
+def run_setup_restart(case, R):
+    _c03("run_e2e")(case, R)
+
+
 SPEC = Property(
     P, "exploration",
     rule=("setup code (all ddd-dd-ddd shapes) x 16-byte salt (random, 1..16 leading zero bytes) x client/server secrets (128-bit and "
           "small), with a deterministic directed search that steps the secrets until PAD(A), PAD(B), PAD(S), K, M1 or M2 starts with "
-          "0x00; modes: client API comparison, all 512 single-bit flips of M2, every proper prefix and suffix of M2, M2 of another exchange, wrong setup code, and the "
-          "M3 message of perform_pair_setup_part2. Non-trivial: the exchange hits at least one leading-zero target, or is a "
+          "0x00; modes: client API comparison, all 512 single-bit flips of M2, every proper prefix and suffix of M2, M2 of another exchange, wrong setup code, the "
+          "M3 message of perform_pair_setup_part2, the mined exchanges as complete pair-setups (K used byte-for-byte in M5/M6), and BLE pairings that start over.  Non-trivial: the exchange hits at least one leading-zero target, or is a "
           "corrupted-proof / wrong-code case."),
     layers=[
         Layer("mined-corpus", run_case, enumerate=enum_corpus, exhaustive=False,
               space="previously mined leading-zero exchanges, every target re-verified by the reference", min_nontrivial=40),
         Layer("directed-leading-zero", run_case, enumerate=enum_targets, exhaustive=False,
               space="9 targets x 1 (quick) / 40 (thorough) freshly mined exchanges, seeds derived from VERIF_SEED", min_nontrivial=5),
+        Layer("mined-corpus-pair-setup", run_setup_corpus, enumerate=lambda tier: _c03("enum_corpus")(tier), exhaustive=False,
+              space="the mined leading-zero exchanges as complete pair-setup exchanges against the reference accessory (it must accept M3 and decrypt/verify M5), decode styles ip and ble"),
+        Layer("restarted-exchanges", run_setup_restart, enumerate=lambda tier: _c03("enum_retry")(tier), exhaustive=False,
+              space="BLE pairing restarted after a link drop or a mistyped code: the proof of every restarted exchange must be the one for the accessory's new salt and B"),
         Layer("generated", run_case, strategy=cases, n={"quick": 192}, tiers=("quick",), min_nontrivial=40),
         Layer("generated-all-targets", run_case, strategy=lambda: cases(targets=("none",) * 6 + ("salt0",) * 3 + tuple(TARGETS[1:8]) * 2),
               n={"thorough": 6000}, tiers=("thorough",), min_nontrivial=1000),
